@@ -135,7 +135,20 @@ def do_op(T, op):
     elif t == 16:
         o = resolve(T, op[1])
         need_tx(o)
-        return SignatureHash(CScript(op[2]), o, op[3], op[4])
+        from bitcoin.core.script import SIGVERSION_WITNESS_V0
+        r = SignatureHash(CScript(op[2]), o, op[3], op[4])
+        # the BIP143 form on the object as it is now and on a fresh immutable snapshot of it: one value
+        try:
+            w1 = SignatureHash(CScript(op[2]), o, op[3], op[4], amount=7, sigversion=SIGVERSION_WITNESS_V0)
+        except Exception as e:  # noqa
+            w1 = type(e).__name__
+        try:
+            w2 = SignatureHash(CScript(op[2]), CTransaction.from_tx(o), op[3], op[4], amount=7, sigversion=SIGVERSION_WITNESS_V0)
+        except Exception as e:  # noqa
+            w2 = type(e).__name__
+        if w1 != w2:
+            raise RuntimeError('segwit signature hash of the object differs from that of its snapshot')
+        return r
     elif t == 17:
         o = resolve(T, op[1])
         need_tx(o)
